@@ -29,6 +29,19 @@ add(
     "DESIGN.md section 4, C07",
 )
 
+add(
+    "C04",
+    "exploration",
+    "Hypothesis-generated blueprint reactors + state-change programs; round-trip oracle on an observe() record",
+    "Reactors are generated from blueprint text (hex third/full, both orientations, Cartesian full/quarter, pin lattices, SFP), "
+    "mutated by generated programs (typed parameter assignments at every level, temperatures, compositions, swaps, rotations, "
+    "discharges, third-to-full conversion, free-coordinate placement) and written/loaded through the real Database; the loaded "
+    "tree must be observationally equal, equal across two loads, and stable under load-write-load.",
+    "observe() (vp/model/observe.py) defines observational equality; parameters that armi re-derives on load (area/volume caches, "
+    "block mass summaries, core maxAssemNum) are compared through the derived quantities; theta-RZ cores are not generated.",
+    "DESIGN.md section 4, C04",
+)
+
 NOT_BUILT_REASON = "check not built yet in this round (planned in DESIGN.md section 4); not claimed"
 
 
